@@ -253,7 +253,11 @@ def gen_relaxed_improves(rng, width=None):
     cut-set). States are ranked lexicographically by id: ids are assigned accordingly."""
     I = Inst()
     w = width if width is not None else rng.choice([2, 2, 3])
-    n = rng.choice([3, 3, 4])
+    # variant B: the EXACT path is the best one (no slack), its terminal T is also reachable below the merged node, and a second terminal T2
+    # is reachable only through exact nodes with a smaller value: the relaxed diagram is exact by the exact-best-path rule, its best node
+    # is not flagged exact, and a flagged-exact terminal of smaller value exists
+    variant_b = rng.chance(1, 3)
+    n = 3 if variant_b else rng.choice([3, 3, 4])
     I.nvars = n; I.order = list(range(n)); I.initval = rng.range(-2, 3)
     k1 = w + rng.range(1, 3)                    # layer 1 wider than the width
     k2 = w + rng.range(1, 2)                    # layer 2 wider than width - 1 (so that something is merged)
@@ -262,7 +266,7 @@ def gen_relaxed_improves(rng, width=None):
     nb = k1 + k2 + 1
     deeper = []
     for _ in range(n - 2):
-        wd = rng.range(1, 2); deeper.append(list(range(nb, nb + wd))); nb += wd
+        wd = 2 if variant_b else rng.range(1, 2); deeper.append(list(range(nb, nb + wd))); nb += wd
     I.nbase = nb; I.init = 0
     big = rng.range(6, 12)
     # root -> layer 1: value v leads to l1[v]
@@ -278,10 +282,63 @@ def gen_relaxed_improves(rng, width=None):
     for j, lay in enumerate(deeper):
         x = 2 + j
         for s_ in prev:
+            if variant_b:
+                T, T2 = lay[0], lay[1]
+                if s_ == b:
+                    I.trans.append((x, s_, 0, T, rng.range(5, 9))); I.trans.append((x, s_, 1, T2, rng.range(0, 3)))
+                else:
+                    I.trans.append((x, s_, 0, T, rng.range(0, 3)))
+                continue
             for v in range(rng.range(1, 2)):
                 I.trans.append((x, s_, v, rng.choice(lay), rng.range(0, 3)))
         prev = lay
-    I.slack = rng.range(big + 10, big + 20)     # merged arcs are over-estimated by more than the optimum's margin
+    # A: merged arcs are over-estimated by more than the optimum's margin; B: no over-estimation, the exact path stays the best
+    I.slack = 0 if variant_b else rng.range(big + 10, big + 20)
     I.rubkind = 0; I.domkind = 0
     I.width_hint = w
+    return I
+
+
+def gen_topmerge(rng, nvars=None, k=None, rub=None):
+    """Dense layered graphs with ONE dedicated merged state per layer: layer d has k ordinary states plus a top state T_d; every ordinary
+    state has an arc to about two thirds of the states of the next layer (value = index of the target); T_d has, towards every target,
+    the best cost any state of its layer has (so it simulates all of them) and leads to the same ordinary target; merging any set of states
+    of layer d yields T_d (chain relaxation: up[b] = T_d). The same merged state therefore re-appears in every diagram, very heavy
+    re-convergence: cache hits inside compilations are frequent. Optional rough-bound table = exact completion + random slack."""
+    I = Inst()
+    n = nvars if nvars is not None else rng.range(4, 8)
+    k = k if k is not None else rng.range(3, 4)
+    I.nvars = n; I.order = list(range(n)); I.initval = 0
+    # ids: layer 0 = [0] (+ its top, unused); layer d >= 1: ordinary states then the top
+    layers = [[0]]; tops = [None]; nb = 1
+    for d in range(1, n + 1):
+        layers.append(list(range(nb, nb + k))); nb += k
+        tops.append(nb); nb += 1
+    I.nbase = nb; I.init = 0
+    I.orderkind = 1; I.slack = 0
+    I.pos = [0] * nb; I.up = list(range(nb))
+    for d in range(1, n + 1):
+        for b in layers[d]: I.up[b] = tops[d]; I.pos[b] = 0
+        I.pos[tops[d]] = 1; I.up[tops[d]] = tops[d]
+    for d in range(n):
+        nxt = layers[d + 1]
+        best = {}
+        for b in layers[d]:
+            for t, dst in enumerate(nxt):
+                if rng.below(3) != 0:
+                    c = rng.below(13) - 3
+                    I.trans.append((d, b, t, dst, c)); best[t] = max(best.get(t, -10**9), c)
+        if d >= 1:
+            for t, c in best.items(): I.trans.append((d, tops[d], t, nxt[t], c))
+    rk = rub if rub is not None else rng.choice([0, 1])
+    if rk == 0: I.rubkind = 0
+    else:
+        H = I.hbase()
+        I.rubkind = 1; I.rub = []
+        for b in range(nb):
+            hs = [H[j][b] for j in range(n + 1) if H[j][b] is not None]
+            I.rub.append((max(hs) + rng.choice([0, 2, 6, 40])) if hs else -1000)
+        for d in range(1, n + 1):
+            I.rub[tops[d]] = max(I.rub[b] for b in layers[d] + [tops[d]])
+    I.domkind = 0
     return I
